@@ -42,7 +42,7 @@
    when F4 i-iii are repaired (F4iv not: hypothesis `finite_step`). *)
 From Coq Require Import List Arith Bool ZArith QArith.
 Import ListNotations.
-From SV Require Import C09.Tracker C09.Lemmas C09.TrackerX C09.LemmasX C09.LemmasR.
+From SV Require Import C09.Tracker C09.Lemmas C09.TrackerX C09.LemmasX C09.LemmasR C09.GreedyAll.
 Close Scope Q_scope.
 Open Scope nat_scope.
 
@@ -588,3 +588,58 @@ Theorem c09x_invalid_matching_raises : forall X st f,
   snd (xstep X st f) = Raise ValueErr.
 Proof. exact xinvalid_matching_raises. Qed.
 Print Assumptions c09x_invalid_matching_raises.
+
+(* --- round 6: the greedy matcher for ALL matrices (C09/GreedyAll.v) ------ *)
+
+(* `greedy_runb` recognises exactly the runs utils.greedy_matching can return (ties
+   free); `greedy_ref` is the executable reference (row-major among equal costs).
+   Until round 5 "the reference is an admissible run" was sampled by the harness
+   (check_matchers).  Now, for EVERY matrix (any shape, ragged rows, NaN cells) and
+   every n, m: the reference IS an admissible greedy run ... *)
+Theorem c09_greedy_reference_is_a_greedy_run_all_matrices : forall M n m,
+  greedy_runb M n m [] [] (greedy_ref M n m) = true.
+Proof. exact greedy_ref_is_run. Qed.
+Print Assumptions c09_greedy_reference_is_a_greedy_run_all_matrices.
+
+(* ... so the greedy contract (premise `contract_step` of the round-1 theorems and of
+   C10) is satisfiable for every matrix ... *)
+Theorem c09_greedy_contract_satisfiable_all_matrices : forall M n m,
+  greedy_contract M n m (APairs (greedy_ref M n m)).
+Proof. exact greedy_contract_satisfiable. Qed.
+Print Assumptions c09_greedy_contract_satisfiable_all_matrices.
+
+(* ... its answer is a one-to-one assignment inside the matrix, empty only when the
+   matrix is (the booleans `validb`, `matchb` the harness evaluates) ... *)
+Theorem c09_greedy_reference_answer_valid_all_matrices : forall M n m,
+  matching n m (greedy_ref M n m) /\
+  (greedy_ref M n m = [] -> n = 0 \/ m = 0) /\
+  validb n m (greedy_ref M n m) = true /\ matchb n m (greedy_ref M n m) = true.
+Proof. exact greedy_ref_matching. Qed.
+Print Assumptions c09_greedy_reference_answer_valid_all_matrices.
+
+(* ... and so is EVERY admissible run, whatever order numpy gave to equal costs. *)
+Theorem c09_every_greedy_run_valid_all_matrices : forall M n m p,
+  greedy_runb M n m [] [] p = true ->
+  matching n m p /\ (p = [] -> n = 0 \/ m = 0) /\ validb n m p = true /\ matchb n m p = true.
+Proof. exact greedy_run_valid. Qed.
+Print Assumptions c09_every_greedy_run_valid_all_matrices.
+
+(* The answer contract `valid_ans` (premise of c09x_repaired_full_any_matcher) at a call
+   answered by the greedy model: for every configuration, state, detections, matrix. *)
+Theorem c09x_greedy_answer_meets_valid_ans : forall X st ds M o p,
+  greedy_runb M (length ds) (length (cur st)) [] [] p = true ->
+  valid_ans X (st, (ds, M, APairs p), o).
+Proof. exact greedy_answer_valid_ans. Qed.
+Print Assumptions c09x_greedy_answer_meets_valid_ans.
+
+Theorem c09x_greedy_reference_meets_valid_ans : forall X st ds M o,
+  valid_ans X (st, (ds, M, APairs (greedy_ref M (length ds) (length (cur st)))), o) /\
+  valid_ansb X st (ds, M, APairs (greedy_ref M (length ds) (length (cur st)))) = true.
+Proof. exact greedy_ref_answer_valid_ans. Qed.
+Print Assumptions c09x_greedy_reference_meets_valid_ans.
+
+(* non-vacuity / shape: a ragged 3 x 2 matrix with a NaN column entry and a tie *)
+Example ex_greedy_ref_ragged_nan_tie :
+  greedy_ref [[Some 1%Q; None]; [Some 1%Q]; [None; Some (1#2)%Q]] 3 2 = [(0, 0); (2, 1)] /\
+  greedy_runb [[Some 1%Q; None]; [Some 1%Q]; [None; Some (1#2)%Q]] 3 2 [] [] [(1, 0); (2, 1)] = true.
+Proof. vm_compute. auto. Qed.
